@@ -150,8 +150,16 @@ def nl_lines(text: str) -> list[str]:
     return [p + "\n" for p in parts[:-1]] + ([parts[-1]] if parts[-1] else [])
 
 
-def run_real(raw, ops, path_text: str | None):
+def run_real(raw, ops, path_text: str | None, verbose: bool = False):
     """Returns (outs, final) where outs are canonical descriptions."""
+    if verbose:         # the trace goes to stdout: swallow it
+        import contextlib, io as _io
+        with contextlib.redirect_stdout(_io.StringIO()):
+            return _run_real(raw, ops, path_text, True)
+    return _run_real(raw, ops, path_text, False)
+
+
+def _run_real(raw, ops, path_text, verbose):
     it = CountingIter(raw)
     tmp = None
     try:
@@ -159,11 +167,12 @@ def run_real(raw, ops, path_text: str | None):
             fd, tmp = tempfile.mkstemp(prefix="pegverif-tok-", suffix=".txt")
             with os.fdopen(fd, "w") as f:
                 f.write(path_text)
-            tk = Tokenizer(it, path=tmp)
+            tk = Tokenizer(it, path=tmp, verbose=verbose)
         else:
-            tk = Tokenizer(it)
+            tk = Tokenizer(it, verbose=verbose)
         outs = []
         pulled_after = []
+        pulled_at_start = it.count
         index_of = {id(t): i for i, t in enumerate(raw)}
         for o in ops:
             try:
@@ -198,6 +207,7 @@ def run_real(raw, ops, path_text: str | None):
             pulled_after.append(it.count)
         final = (tk._index, len(tk._tokens), it.count, list(tk._lines.items()))
         run_real.pulled_after = pulled_after
+        run_real.pulled_at_start = pulled_at_start
         return outs, final
     finally:
         if tmp:
